@@ -128,7 +128,7 @@ def run(R, tier):
                     viol('relabel-' + op, f'relabel({op}_custom(x, y)) = {lhs} but {op}_default(relabel x, relabel y) = {rhs} (orientation factor {factor}) in Algebra({desc}); x={x}, y={y}',
                          algebra=spec, op=op, x=str(x), y=str(y))
             # matrix representation commutes with the map: in particular it stays multiplicative
-            if d <= 3 and rep == 0:
+            if d <= 3 and rep == 0 and x and y:      # (an operand that stores no blade has the NUMBER 0 as its asmatrix(): no matrix product)
                 import numpy as np
                 R.case((desc, 'asmatrix', ka, kb), True)
                 try:
